@@ -60,6 +60,12 @@ type Req struct {
 	// Uncond is the origin's answer to a request without If-None-Match/If-Modified-Since,
 	// Cond (optional) the answer to one that carries either. Bg (optional) overrides both
 	// for calls not made on the caller's goroutine (background revalidation).
+	// TraceID, if set, is attached to the request context with httpcache.ContextWithTraceID.
+	TraceID string `json:"trace_id,omitempty"`
+	// DeadlineNs > 0 gives the caller's context a deadline that long after the call starts.
+	DeadlineNs int64 `json:"deadline_ns,omitempty"`
+	// HoldBody: the body of the response is read only at the end of the scenario.
+	HoldBody bool `json:"hold_body,omitempty"`
 	// Client behaviour after RoundTrip returned (used by the concurrency checks): scribble on
 	// the returned header map, read the body late, mutate the own request after closing the body.
 	Scribble   bool   `json:"scribble,omitempty"`
